@@ -3,6 +3,7 @@ EXTENDS Integers
 \* default project: vMAJOR.MINOR.PATCH[-TAG], {pep440_version} pattern MAJOR.MINOR.PATCH[PYTAGNUM], start v1.2.3-beta
 GenP == <<[t |-> "lit", s |-> <<118>>], [t |-> "part", p |-> "MAJOR"], [t |-> "lit", s |-> <<46>>], [t |-> "part", p |-> "MINOR"], [t |-> "lit", s |-> <<46>>], [t |-> "part", p |-> "PATCH"],
           [t |-> "opt", body |-> <<[t |-> "lit", s |-> <<45>>], [t |-> "part", p |-> "TAG"]>>]>>
+GenPartial == <<[t |-> "lit", s |-> <<115, 101, 114, 105, 101, 115, 32>>], [t |-> "part", p |-> "MAJOR"], [t |-> "lit", s |-> <<46>>], [t |-> "part", p |-> "MINOR"]>>
 GenV0 == <<118, 49, 46, 50, 46, 51, 45, 98, 101, 116, 97>>
 GenDay0 == 739000
 GenDayStep == {0, 1, 40}
